@@ -39,11 +39,22 @@ pub fn validate(server_name: &str) -> Result<(), Error> {
             // hostname is followed by something other than ":port"
             server_name.as_bytes()[end_of_host] != b':'
             // the remaining characters after ':' are not a valid port
-            || server_name[end_of_host + 1..].parse::<u16>().is_err()
+            || !is_valid_port(&server_name[end_of_host + 1..])
         )
     {
         Err(Error::InvalidServerName)
     } else {
         Ok(())
     }
+}
+
+/// Whether the string is a port as the spec's grammar has it (`1*5DIGIT`) that also fits the `u16`
+/// returned by `ServerName::port()`.
+///
+/// `u16::from_str` alone is too lenient: it accepts a leading `+` and any number of leading
+/// zeroes.
+fn is_valid_port(port: &str) -> bool {
+    (1..=5).contains(&port.len())
+        && port.bytes().all(|byte| byte.is_ascii_digit())
+        && port.parse::<u16>().is_ok()
 }
